@@ -31,6 +31,42 @@ Proof.
   - lia.
 Qed.
 
+(* ---------- a right shift by more than the bit length is 0 or -1 *)
+Lemma shr_far x n : 0 <= n -> Z.log2 (Z.abs x) < n -> x / 2 ^ n = if x <? 0 then -1 else 0.
+Proof.
+  intros Hn Hl.
+  assert (P : 0 < 2 ^ n) by (apply Z.pow_pos_nonneg; lia).
+  assert (B : Z.abs x < 2 ^ n).
+  { destruct (Z.eq_dec x 0) as [->|NZ]; [cbn; lia|]. apply Z.log2_lt_pow2; lia. }
+  destruct (x <? 0) eqn:E.
+  - symmetry. apply (Z.div_unique x (2 ^ n) (-1) (x + 2 ^ n)); lia.
+  - apply Z.div_small. lia.
+Qed.
+
+Lemma big_rsh_shiftr x n : 0 <= n -> big_rsh x n = Z.shiftr x n.
+Proof.
+  intros Hn. unfold big_rsh. destruct (Z.log2 (Z.abs x) <? n) eqn:E; [|reflexivity].
+  rewrite Z.shiftr_div_pow2 by assumption. symmetry. apply shr_far; lia.
+Qed.
+
+(* evaluation form of the specification used by C10.Cases: identical to
+   spec_binary, but a shift count far beyond the operand's length is answered
+   without computing 2^count *)
+Definition spec_binary_eval (o : binop) (x y : Z) : option Z :=
+  match o with
+  | RSH => if (y <? 0) || (max_int32 <? y) then None
+           else if Z.log2 (Z.abs x) <? y then Some (if x <? 0 then -1 else 0) else Some (x / 2 ^ y)
+  | _ => spec_binary o x y
+  end.
+
+Lemma spec_binary_eval_eq o x y : spec_binary_eval o x y = spec_binary o x y.
+Proof.
+  destruct o; try reflexivity. cbn [spec_binary_eval spec_binary].
+  destruct ((y <? 0) || (max_int32 <? y)) eqn:E; [reflexivity|].
+  destruct (Z.log2 (Z.abs x) <? y) eqn:F; [|reflexivity].
+  f_equal. symmetry. apply shr_far; lia.
+Qed.
+
 (* ---------- canonical representation *)
 Definition canonical (I : int_impl) (x : T I) : bool :=
   match get I x with
@@ -221,7 +257,7 @@ Section Generic.
   Proof. intros Hn. unfold Lsh, res_is. change (bigInt I x) with (val x); rewrite Z.shiftl_mul_pow2 by assumption. apply MakeBigInt_ok. Qed.
 
   Lemma Rsh_ok x n : 0 <= n -> res_is (Rsh I x n) (val x / 2 ^ n).
-  Proof. intros Hn. unfold Rsh, res_is. change (bigInt I x) with (val x); rewrite Z.shiftr_div_pow2 by assumption. apply MakeBigInt_ok. Qed.
+  Proof. intros Hn. unfold Rsh, res_is. change (bigInt I x) with (val x); rewrite big_rsh_shiftr, Z.shiftr_div_pow2 by assumption. apply MakeBigInt_ok. Qed.
 
   Lemma Sign_ok x : canon x = true -> Sign I x = sign_of (val x).
   Proof.
